@@ -243,6 +243,90 @@ def o4_o6_builder(ck):
     gb = ck.body(GEN, "O6")
     names = [callee_name(t).split("::")[-1] for bb, t in live_calls(gb)]
     ck.req("try_fold" in names and "filter" in names and "split" in names, "O6.all_games", "generate_book_data", gb.where(), "book files are not split into games and folded (%s)" % sorted(set(names))[:12])
+    # O6.corpus_games: the splitting discipline of the builder (read from its MIR) applied to the book files of the repository (static
+    # data): every chunk that is a game - its text, ignoring surrounding whitespace, starts with move number 1 - must pass the builder's
+    # filter; otherwise that game's moves are never recorded.
+    gtb = TermBuilder(prog, gb)
+    sep = None
+    trimmed_file = False
+    for bb, t in live_calls(gb):
+        n_ = callee_name(t)
+        if n_.endswith("<impl str>::split") and len(t["args"]) == 2:
+            a = [gtb.operand(x) for x in t["args"]]
+            sep = _str_const(a[1])
+            trimmed_file = any(x[0] == "call" and x[1].endswith("<impl str>::trim") for x in walk(a[0]))
+    flt = None
+    for cn in prog.closures_of(GEN):
+        c = prog.body(cn)
+        if c.local_ty(0) == "bool":
+            ctb = TermBuilder(prog, c)
+            for bb, t in live_calls(c):
+                if callee_name(t).endswith("<impl str>::starts_with"):
+                    a = [ctb.operand(x) for x in t["args"]]
+                    pre = [y for x in a[1:] for y in [_str_const(x)] if y is not None]
+                    chunk_trim = [x[1].split("::")[-1] for x in walk(a[0]) if x[0] == "call" and x[1].split("::")[-1] in ("trim", "trim_start")]
+                    if pre:
+                        flt = (pre[0], chunk_trim[0] if chunk_trim else None)
+    # the per-game text handed to the parser may also have been trimmed by a map() before the filter
+    mapped_trim = any(callee_name(t).endswith("Iterator::map") for bb, t in live_calls(gb)) and any(
+        any(callee_name(t2).split("::")[-1] in ("trim", "trim_start") for b2, t2 in live_calls(prog.body(cn))) for cn in prog.closures_of(GEN) if prog.body(cn).local_ty(0).startswith("&str"))
+    if sep is None or flt is None:
+        ck.fail("O6.corpus_games", "generate_book_data", gb.where(), "cannot recover the builder's splitting idiom (split separator / starts_with filter)")
+        return
+    import os as _os
+    book_dir = None
+    for cand in ("book",):
+        d_ = _os.path.join(_os.environ.get("WCX_REPO", "/repo"), cand)
+        # scratch copies: facts dir is <scratch>/_facts
+        fd = getattr(ck, "facts_dir", "")
+        if fd.endswith("_facts") and _os.path.isdir(_os.path.join(_os.path.dirname(fd), cand)):
+            d_ = _os.path.join(_os.path.dirname(fd), cand)
+        if _os.path.isdir(d_):
+            book_dir = d_
+    if book_dir is None:
+        ck.missing("O6", "book directory of the repository")
+        return
+    dropped = []
+    n_games = 0
+    for f_ in sorted(_os.listdir(book_dir)):
+        pth = _os.path.join(book_dir, f_)
+        if not _os.path.isfile(pth):
+            continue
+        try:
+            txt = open(pth, encoding="utf-8", errors="replace").read()
+        except OSError:
+            continue
+        if trimmed_file:
+            txt = txt.strip()
+        for chunk in txt.split(sep):
+            if not chunk.strip().startswith("1."):
+                continue      # not a game (tags, comments, empty)
+            n_games += 1
+            seen = chunk
+            if mapped_trim or flt[1] == "trim":
+                seen = chunk.strip()
+            elif flt[1] == "trim_start":
+                seen = chunk.lstrip()
+            if not seen.startswith(flt[0]):
+                dropped.append((f_, chunk.strip()[:40]))
+    ck.floor("O6", n_games, 1000, "games in the repository's book files")
+    ck.req(not dropped, "O6.corpus_games", "book files", gb.where(),
+           "%d game(s) of the book directory never reach the builder's per-game fold: the chunk filter `starts_with(%r)` is applied to the raw chunk of "
+           "split(%r), and these chunks begin with whitespace (an extra blank line precedes the game): %s" % (len(dropped), flt[0], sep, dropped[:4]),
+           "%d games, all pass the chunk filter" % n_games)
+    ck.extra["book_games_in_repository"] = n_games
+
+
+def _str_const(t):
+    from terms import thaw
+    for x in walk(t):
+        if x[0] == "const":
+            v = thaw(x[2])
+            while isinstance(v, dict) and "$ref" in v and len(v) == 1:
+                v = v["$ref"]
+            if isinstance(v, dict) and "$str" in v:
+                return v["$str"]
+    return None
 
 
 def o5_union(ck):
